@@ -14,6 +14,12 @@ Theorem C13_header : forall s h, parse_header s = Ok h -> parse_header (print_he
 Proof. exact header_roundtrip. Qed.
 Print Assumptions C13_header.
 
+(** Canonical text (what printing produces) prints back byte-identically after parsing. *)
+Theorem C13_canonical_bytes : forall s h, parse_header s = Ok h ->
+  exists h', parse_header (print_header h) = Ok h' /\ print_header h' = print_header h.
+Proof. intros s h H. exists h. split; [eapply header_roundtrip; eauto|reflexivity]. Qed.
+Print Assumptions C13_canonical_bytes.
+
 Theorem C13_data : forall s d, parse_drec s = Ok d -> exists p, print_drec d = Val p /\ parse_drec p = Ok d.
 Proof. exact drec_roundtrip. Qed.
 Print Assumptions C13_data.
